@@ -233,12 +233,16 @@ Proof. unfold numeric_first, is_digit, lower. destruct ((65 <=? b) && (b <=? 90)
 Lemma need_pipes_false_resolves c (name : list byte) : need_pipes name = false ->
   resolve_token (case_name (p_case c) name) = OSym (case_name (p_case c) name).
 Proof.
-  unfold need_pipes. intros H. apply orb_false_iff in H as [_ H]. destruct name as [|b r]; [destruct (p_case c); reflexivity|].
+  unfold need_pipes. intros H. apply orb_false_iff in H as [H _]. apply orb_false_iff in H as [_ H].
+  destruct name as [|b r]; [destruct (p_case c); reflexivity|].
   apply resolve_symbolic. rewrite map_lower_case.
   destruct (numeric_first b) eqn:Ef; [exact H|]. cbn [map].
   destruct (numeric_like (lower b :: map lower r)) eqn:E; [|reflexivity].
   apply numeric_like_first in E. rewrite lower_numeric_first in E. congruence.
 Qed.
+Lemma need_pipes_false_dot (name : list byte) : need_pipes name = false -> name <> [46].
+Proof. intros H ->. vm_compute in H. discriminate H. Qed.
+
 Lemma pipe_ok_closed b : pipe_ok_byte b = true /\ b < 128 -> (pipe_ok_byte (lower b) = true /\ lower b < 128) /\ (pipe_ok_byte (upper b) = true /\ upper b < 128).
 Proof.
   intros [H Hb]. unfold pipe_ok_byte in *. unfold lower, upper.
@@ -246,17 +250,17 @@ Proof.
 Qed.
 
 (* the name as the printer writes it without bars *)
-Lemma bare_reads c (s : list byte) : bare_ok s = true ->
-  resolve_token (case_name (p_case c) s) = OSym (case_name (p_case c) s) ->
+Lemma bare_reads c (s : list byte) : need_pipes s = false -> bare_ok s = true ->
   exists y, Reads (case_name (p_case c) s) (TLeaf (LTok (case_name (p_case c) s))) /\
             obj_of_tree (TLeaf (LTok (case_name (p_case c) s))) = Some y /\ obj_equal (OSym s) y = true /\
             ty_eqb (type_of (OSym s)) (type_of y) = true /\ is_dot (TLeaf (LTok (case_name (p_case c) s))) = false /\
             case_name (p_case c) s <> [].
 Proof.
-  unfold bare_ok. intros H Hres. apply andb_true_iff in H as [H Hdot]. apply andb_true_iff in H as [H Hnil].
+  unfold bare_ok. intros Hnp H. pose proof (need_pipes_false_resolves c s Hnp) as Hres.
+  pose proof (need_pipes_false_dot s Hnp) as Hdot. apply andb_true_iff in H as [H Hnil].
   apply andb_true_iff in H as [Hshape Ht].
   destruct s as [|b r]; [discriminate Hshape|]. apply andb_true_iff in Hshape as [Hf Hr].
-  apply negb_true_iff in Ht, Hnil, Hdot.
+  apply negb_true_iff in Ht, Hnil.
   set (w := case_name (p_case c) (b :: r)).
   assert (Htok : exists a rest, w = a :: rest /\ token_first a = true /\ forallb token_byte rest = true).
   { assert (HrL : forallb token_byte (map lower r) = true).
@@ -273,7 +277,7 @@ Proof.
   - cbn [obj_of_tree]. unfold w. rewrite Hres. reflexivity.
   - cbn [obj_equal]. unfold w. rewrite map_lower_case. apply bytes_eqb_refl.
   - destruct (is_dot (TLeaf (LTok w))) eqn:Ed; [|reflexivity]. apply is_dot_true in Ed. apply case_46 in Ed.
-    rewrite Ed in Hdot. discriminate Hdot.
+    contradiction.
   - rewrite Ew. discriminate.
 Qed.
 
@@ -327,8 +331,7 @@ Proof.
       split.
       { apply Reads_pipe_body, pesc_body. apply case_name_bytes; assumption. }
       repeat split; try reflexivity; try discriminate. cbn [obj_equal]. unfold w. rewrite map_lower_case. apply bytes_eqb_refl.
-    + pose proof (need_pipes_false_resolves c (b :: r) Enp) as Hres. fold w in Hres.
-      destruct (bare_reads c (b :: r) H Hres) as (y & HR & Ho & He & Ht & Hd & Hne).
+    + destruct (bare_reads c (b :: r) Enp H) as (y & HR & Ho & He & Ht & Hd & Hne).
       exists (TLeaf (LTok w)), y. repeat split; try assumption. discriminate.
 Qed.
 
